@@ -54,6 +54,12 @@ class MapFiller(Visitor):
         return circuitbuilder.build(sexpr, inject_pulses=inject_pulses)
 
     def visit_BlockStatement(self, block):
+        if block.subcircuit:
+            return [
+                "subcircuit_block",
+                block.iterations,
+                *(self.visit(stmt) for stmt in block.statements),
+            ]
         if block.parallel:
             block_type = "parallel_block"
         else:
